@@ -33,6 +33,7 @@ func main() {
 		for i := 0; i < *n; i++ {
 			palsd.Case(w, rng, i, *maxLen)
 		}
+		palsd.GapSeries(w, 40+*n/5)
 	}
 	w.Close()
 	fmt.Printf("records=%d\n", w.N)
